@@ -722,6 +722,21 @@ def shrink(w, kind):
   return w
 
 
+def drop_rename(item, i):
+  """the must-bundle without its i-th rename (None if it has another shape)"""
+  acts = item['actions']
+  new = dict(item)
+  new['targets'] = item['targets'][:i] + item['targets'][i + 1:]
+  if len(acts) == 1 and acts[0][0] == 'BulkUpdateRecord':
+    a = acts[0]
+    new['actions'] = [[a[0], a[1], a[2][:i] + a[2][i + 1:], {k: v[:i] + v[i + 1:] for k, v in a[3].items()}]]
+    return new
+  if all(a[0] == 'UpdateRecord' for a in acts) and len(acts) == len(item['targets']):
+    new['actions'] = acts[:i] + acts[i + 1:]
+    return new
+  return None
+
+
 def _shrink(w, fails):
   changed = True
   while changed:
@@ -736,6 +751,19 @@ def _shrink(w, fails):
             w, changed = x, True
           else:
             i += 1
+    for k, item in enumerate(w.get('history', [])):
+      if not isinstance(item, dict):
+        continue
+      n = len(item.get('targets', []))
+      i = 0
+      while n > 1 and i < n:
+        new = drop_rename(item, i)
+        x = dict(w)
+        x['history'] = w['history'][:k] + [new] + w['history'][k + 1:]
+        if new is not None and fails(x):
+          w, item, n, changed = x, new, n - 1, True
+        else:
+          i += 1
     if isinstance(w.get('ident'), str):
       i = 0
       while i < len(w['ident']):
@@ -765,6 +793,35 @@ def engine_ids(e):
   return tabs
 
 
+LAST_TABLE = [None]       # table in which check_doc found the last failure
+
+
+def col_rows(e):
+  from harness import gristenv
+  trep = gristenv.actions.get_action_repr(e.fetch_table('_grist_Tables'))
+  crep = gristenv.actions.get_action_repr(e.fetch_table('_grist_Tables_column'))
+  tname = dict(zip(trep[2], trep[3]['tableId']))
+  tsum = dict(zip(trep[2], trep[3]['summarySourceTable']))
+  return [{'ref': r, 'tref': p, 'table': tname.get(p), 'col': c, 'gb': bool(ssc), 'source': tsum.get(p) or 0}
+          for r, p, c, ssc in zip(crep[2], crep[3]['parentId'], crep[3]['colId'], crep[3]['summarySourceCol'])]
+
+
+def sister_propagation(before, refs, failing_table):
+  """Is the failing table one that received a rename only because it holds a SISTER (same-named formula column of a
+  sibling summary table of the same source) of a column the bundle renames?"""
+  names = {r['table'] for r in before}
+  for t in before:
+    if t['ref'] not in refs or not t['source'] or t['gb']:
+      continue
+    sib = [r for r in before if r['source'] == t['source'] and r['tref'] != t['tref'] and not r['gb']
+           and r['col'] == t['col']]
+    if not sib:
+      continue
+    if failing_table is None or failing_table not in names or any(r['table'] == failing_table for r in sib):
+      return True
+  return False
+
+
 def check_doc(e, a):
   """the ids stored in the metadata after action a: every table id / column id valid, unique case-insensitively"""
   tabs = engine_ids(e)
@@ -778,23 +835,47 @@ def check_doc(e, a):
     for c in cols:
       bad = check_id(c, seen_c, False)
       if bad:
+        LAST_TABLE[0] = t
         return (bad[0], 'after %r: column id of %s: %s' % (a, t, bad[1]))
       seen_c.append(c)
   return None
 
 
 def apply_checked(e, a):
-  """apply one user action; (kind, description) if the property fails, else None (other failures are allowed)"""
+  """apply one history item: a user action (other failures than the property's are allowed), or
+  {'actions': [...], 'must': True} = one bundle of valid renames that must succeed.
+  Returns (kind, description) if the property fails, else None."""
   from harness import gristenv
+  must = isinstance(a, dict)
+  bundle = a['actions'] if must else [a]
+  if must:
+    # the recorded targets must still be those columns (a shrunk history may have lost the setup): else skip
+    before = col_rows(e)
+    now = {r['ref']: '%s.%s' % (r['table'], r['col']) for r in before}
+    refs = [r for act in bundle for r in (act[2] if act[0] == 'BulkUpdateRecord' else [act[2]])]
+    if [now.get(r) for r in refs] != list(a.get('targets', [])):
+      return None
   try:
-    gristenv.apply(e, [a])
+    gristenv.apply(e, bundle)
   except SyntaxError as ex:
     # the generated module (class <tableId>: ... <colId> = ...) does not compile: an id is not a usable identifier
-    return ('generated-code-syntax-error', 'action %r raised %s: %s' % (a, type(ex).__name__, ex))
-  except Exception:      # pylint: disable=broad-except
+    return ('generated-code-syntax-error', 'action %r raised %s: %s' % (bundle, type(ex).__name__, ex))
+  except Exception as ex:      # pylint: disable=broad-except
     gristenv.clean(e)
+    if must and a.get('must'):
+      m = re.search(r'Column \S+ already exists in (\S+)', str(ex))
+      if m and sister_propagation(before, refs, m.group(1)):
+        return ('sister-rename-collision', 'the renames %r failed with %s: %s (a rename propagated to the sister '
+                'column of a sibling summary table is not made unique there)' % (bundle, type(ex).__name__, ex))
+      return ('valid-rename-batch-failed', 'the renames %r failed with %s: %s (ids picked in one batch must be '
+              'made unique, not rejected)' % (bundle, type(ex).__name__, ex))
     return None
-  return check_doc(e, a)
+  LAST_TABLE[0] = None
+  bad = check_doc(e, bundle)
+  if bad and must and bad[0] == 'collision' and sister_propagation(before, refs, LAST_TABLE[0]):
+    return ('sister-rename-collision', bad[1] + ' (a rename propagated to the sister column of a sibling summary '
+            'table is not made unique there)')
+  return bad
 
 
 def run_history(hist):
@@ -889,7 +970,143 @@ def keyword_histories(ctx):
   return out
 
 
+# ---- summary tables: a rename of a source column lands in other tables too ---------------------------------
+
+def col_table(e):
+  """[(colRef, tableId, colId, is group-by column of a summary table, table is a summary table)]"""
+  from harness import gristenv
+  trep = gristenv.actions.get_action_repr(e.fetch_table('_grist_Tables'))
+  crep = gristenv.actions.get_action_repr(e.fetch_table('_grist_Tables_column'))
+  tname = dict(zip(trep[2], trep[3]['tableId']))
+  tsum = dict(zip(trep[2], trep[3]['summarySourceTable']))
+  return [(r, tname.get(p), c, bool(ssc), bool(tsum.get(p)))
+          for r, p, c, ssc in zip(crep[2], crep[3]['parentId'], crep[3]['colId'], crep[3]['summarySourceCol'])]
+
+
+RENAME_POOL = ['foo', 'class', 'none', 'a b', '1x', 'X', 'Y', 'Z', 'V', 'count', 'group', 'id', 'manualSort',
+               '\u00e9t\u00e9', 'A', '', 'if', 'T', 'total_2', 'Total2']
+
+
+def rename_names(rng, k):
+  """k requested names that collide after sanitising: equal, case variants, padded, plus sometimes a stranger"""
+  base = rng.choice(RENAME_POOL)
+  forms = [base, base, base.capitalize(), base.upper(), base.swapcase(), ' ' + base, base + '!', base + '2',
+           base.lower()]
+  out = [rng.choice(forms) for _ in range(k)]
+  if rng.random() < 0.3:
+    out[rng.randrange(k)] = rng.choice(RENAME_POOL)
+  return out
+
+
+def summary_scenario(ctx, concrete):
+  """T(X,Z,V) with one or two summary tables (sisters share the formula column Y), then bundles that rename a
+  group-by SOURCE column and summary-table columns together (BulkUpdateRecord on _grist_Tables_column by colId or by
+  label, or several UpdateRecords in one bundle).  The concrete actions are appended to `concrete` as they run."""
+  from harness import gristenv
+  rng = ctx.rng
+  e, _ = gristenv.new_doc()
+
+  def do(item):
+    concrete.append(item)
+    return apply_checked(e, item)
+
+  def ref(t, c):
+    for r, tt, cc, _g, _s in col_table(e):
+      if tt == t and cc == c:
+        return r
+    return None
+
+  bad = do(['AddTable', 'T', [{'id': 'X', 'type': 'Text', 'isFormula': False},
+                              {'id': 'Z', 'type': 'Text', 'isFormula': False},
+                              {'id': 'V', 'type': 'Numeric', 'isFormula': False}]])
+  bad = bad or do(['BulkAddRecord', 'T', [None, None, None], {'X': ['a', 'b', 'a'], 'Z': ['p', 'p', 'q'], 'V': [1, 2, 3]}])
+  if bad:
+    return bad
+  shape = rng.choice(['X', 'X', 'X+XZ', 'X+XZ', 'X+Z', 'XZ'])
+  groups = {'X': [['X']], 'X+XZ': [['X'], ['X', 'Z']], 'X+Z': [['X'], ['Z']], 'XZ': [['X', 'Z']]}[shape]
+  first = True
+  for g in groups:
+    bad = do(['CreateViewSection', 1, 0, 'record', [ref('T', c) for c in g], None])
+    if bad:
+      return bad
+    if first:
+      first = False
+      st = [t for _r, t, _c, _g, s_ in col_table(e) if s_]
+      if st:
+        bad = do(['AddColumn', st[0], 'Y', {'formula': 'SUM($group.V)', 'isFormula': True}])
+        if bad:
+          return bad
+  if rng.random() < 0.4:       # a second formula column in the last summary table only
+    st = sorted({t for _r, t, _c, _g, s_ in col_table(e) if s_})
+    if st:
+      bad = do(['AddColumn', st[-1], rng.choice(['W', 'foo', 'y']), {'formula': '1', 'isFormula': True}])
+      if bad:
+        return bad
+
+  for _ in range(rng.randint(1, 3)):
+    cols = col_table(e)
+    src = [(r, t, c) for r, t, c, g, s_ in cols if not s_ and c not in ('manualSort',) and not c.startswith('gristHelper_')]
+    grouped_src = {c for _r, _t, c, g, s_ in cols if s_ and g}
+    sumc = [(r, t, c) for r, t, c, g, s_ in cols
+            if s_ and not g and c not in ('group', 'manualSort') and not c.startswith('gristHelper_')]
+    a = [x for x in src if x[2] in grouped_src] or src
+    targets = [rng.choice(a)]
+    if sumc:
+      targets.append(rng.choice(sumc))
+    extra = [x for x in src + sumc if x not in targets]
+    rng.shuffle(extra)
+    targets += extra[:rng.choice([0, 0, 1, 2])]
+    # at most one of several sister columns (they are renamed together by the engine)
+    seen_names, uniq = set(), []
+    for x in targets:
+      key = (x[2], x[1] in {t for _r, t, _c, _g, s_ in cols if s_})
+      if key in seen_names:
+        continue
+      seen_names.add(key)
+      uniq.append(x)
+    targets = uniq
+    if rng.random() < 0.5:
+      targets.reverse()
+    names = rename_names(rng, len(targets))
+    mode = rng.choice(['colId', 'colId', 'label', 'updates'])
+    refs = [x[0] for x in targets]
+    if mode == 'colId':
+      acts = [['BulkUpdateRecord', '_grist_Tables_column', refs, {'colId': names}]]
+    elif mode == 'label':
+      acts = [['BulkUpdateRecord', '_grist_Tables_column', refs, {'label': names, 'untieColIdFromLabel': [False] * len(refs)}]]
+    else:
+      acts = [['UpdateRecord', '_grist_Tables_column', r, {'colId': n}] for r, n in zip(refs, names)]
+    bad = do({'actions': acts, 'must': True,
+              'targets': ['%s.%s' % (t, c) for _r, t, c in targets]})
+    if bad:
+      return bad
+  return None
+
+
+def summary_search(ctx):
+  for _ in range(ctx.n(40, 1200)):
+    concrete = []
+    st, bad = call(summary_scenario, ctx, concrete, _limit=15.0)
+    w = {'fn': 'engine', 'history': concrete, 'avoid': []}
+    if st == 'timeout':
+      ctx.violation('engine:timeout', 'the last action of the history %r did not finish' % (concrete,), w)
+      return
+    if st != 'ok':
+      ctx.log('summary scenario could not be run: %s' % (bad,))
+      ctx.bump('summary-scenario-error')
+      continue
+    ctx.count(('summary', repr(concrete)), nontrivial=True, kind='engine-summary-rename-history')
+    if bad:
+      small = shrink(w, bad[0])
+      ctx.violation('engine:' + bad[0], (engine_oracle(small) or bad)[1], small)
+      if len(ctx.violations) > 20:
+        return
+
+
 def engine_search(ctx):
+  summary_search(ctx)
+  if len(ctx.violations) > 20:
+    return
   hists = keyword_histories(ctx)
   n = ctx.n(12, 300)
   for k in range(len(hists) + n):
